@@ -13,8 +13,13 @@ import uuid
 from concurrent.futures import ThreadPoolExecutor
 
 kind = sys.argv[1]
-ids = [a for a in sys.argv[2:] if not a.startswith("--")]
-jobs = int(sys.argv[sys.argv.index("--jobs") + 1]) if "--jobs" in sys.argv else 3
+args = sys.argv[2:]
+jobs = 3
+if "--jobs" in args:
+    k = args.index("--jobs")
+    jobs = int(args[k + 1])
+    del args[k:k + 2]
+ids = args
 root = os.path.join("/verif", kind)
 if not ids:
     ids = sorted(d for d in os.listdir(root) if os.path.isfile(os.path.join(root, d, "patch.diff")))
